@@ -45,9 +45,20 @@ pub fn judge(c: &Case) -> Verdict {
     let (pre, k) = kind(c.prefix);
     let text = format!("-perm {pre}{}", arg_text(&c.arg));
     let m = match &c.arg {
-        Arg::Octal(d) => match u32::from_str_radix(d, 8) {
-            Ok(v) if v <= 0o7777 && d.len() >= 3 => v,
-            _ => return Verdict::Skip("octal string outside 3+ digits / 12 bits (C05/C03)"),
+        Arg::Octal(d) => match u128::from_str_radix(d, 8) {
+            Ok(v) if v <= 0o7777 && d.len() >= 3 => v as u32,
+            Ok(v) if d.len() >= 3 => {
+                // a value with bits outside the twelve permission bits: rejected, or carried exactly
+                return match catch(|| parse(&text)) {
+                    Err(p) => Verdict::Fail(format!("parse panicked on {text:?}: {p}")),
+                    Ok(Err(_)) => Verdict::Pass { nt: true, class: "octal beyond 12 bits: rejected" },
+                    Ok(Ok((_, x))) => match from_ast(&x) {
+                        E::T(Tst::Perm(_, gm)) if gm as u128 == v => Verdict::Pass { nt: true, class: "octal beyond 12 bits: carried exactly" },
+                        other => Verdict::Fail(format!("{text:?}: the octal value {v:o} does not fit the permission bits, yet it was accepted as {other:?}")),
+                    },
+                };
+            }
+            _ => return Verdict::Skip("not an octal string of 3+ digits"),
         },
         Arg::Symbolic(cl) => {
             if cl.is_empty() {
@@ -207,6 +218,29 @@ pub fn run(ctx: &Ctx) -> Report {
         st
     });
     total.merge(oct);
+    // octal arguments whose value has bits outside the twelve permission bits (file-type bits of an
+    // st_mode, 11+ digit values whose low 32 bits look valid): rejected, or carried exactly
+    let mut sto = Stats::new();
+    let mut big: Vec<String> = vec![];
+    for v in [0o10000u64, 0o10644, 0o17777, 0o40755, 0o100644, 0o100000, 0o120777, 0o170000, 0o177777, 0o200000, 0o1000000, 0o7777777] {
+        big.push(format!("{v:o}"));
+        big.push(format!("0{v:o}"));
+    }
+    for hi in ["4", "1", "10", "377", "40000"] {
+        for zeros in 6..=12 {
+            for low in ["0644", "7777", "0000", "0001"] {
+                big.push(format!("{hi}{}{low}", "0".repeat(zeros)));
+            }
+        }
+    }
+    for d in big {
+        for prefix in 0..3u8 {
+            let c = Case { prefix, arg: Arg::Octal(d.clone()), exec: false, all_modes: false };
+            let v = judge(&c);
+            sto.record(&v, stable_hash(&c), true, || case_json(&c));
+        }
+    }
+    total.merge(sto);
     total.exhaustive_parts.push("all 4096 octal values (4 digits) and the 512 three-digit ones x 3 prefixes, each executed on the directed mode set (1 in 53 on all 4096 modes)".into());
     // symbolic: all single clauses and all ordered pairs, under 3 prefixes
     let n = all.len();
